@@ -160,7 +160,7 @@ def unit_param(u, rec):
     mod = ex
     for part in modpath.split("."):
         mod = getattr(mod, part)
-    cls = getattr(mod, name)
+    cls = getattr(mod, name.split("@")[0])
     sig = inspect.signature(cls.__init__)
     N = {1: 12, 2: 8, 3: 6}[D]
     L, dt = 2.5, 0.05
@@ -197,8 +197,9 @@ def unit_param(u, rec):
     rng = np.random.RandomState(5 + u["seed"])
     for pname, vals in plist.items():
         rec.dim("parameter", pname)
-        p0 = float(vals[1])
-        for order in (tuple(u["orders"]) if has_order else (0,)):
+        # differentiate at the middle value, and at exactly 0 where zero is in the lattice (statically skipped zero terms must still be differentiable)
+        p0s = sorted({float(vals[1])} | ({0.0} if 0.0 in [float(v) for v in vals] else set()))
+        for p0, order in [(a, b) for a in p0s for b in (tuple(u["orders"]) if has_order else (0,))]:
             for bname, x in pts.items():
                 info = dict(parameter=pname, p0=p0, order=order, base=bname)
                 F = lambda p: make(pname, p, order)(x)
